@@ -23,6 +23,7 @@ type RunCfg struct {
 	Stick         int    `json:"stick"`
 	MaxFragment   int    `json:"max_fragment"`
 	TapeLimit     int    `json:"tape_limit"`
+	Slow          []string `json:"slow,omitempty"` // goroutine classes scheduled ~30x less often
 
 	Txns      []TxnSpec   `json:"txns"`
 	Monitors  []MonSpec   `json:"monitors"`
@@ -121,3 +122,15 @@ func LoadReplay(path string) (*RunCfg, error) {
 }
 
 func ms(n int) time.Duration { return time.Duration(n) * time.Millisecond }
+
+// slowClasses picks, for about half of the runs, one class of goroutines to be
+// the slow party. Classes are substrings of logical goroutine ids: harness
+// actors are "<client>.<call>", the client's read loop is spawned at
+// client:<line of "go o.rpcClient.Run()">, server handlers are
+// "rpc2.Client.handleRequest", the event dispatcher "cache:".
+func slowClasses(r interface{ Intn(int) int }, classes ...string) []string {
+	if r.Intn(2) == 0 || len(classes) == 0 {
+		return nil
+	}
+	return []string{classes[r.Intn(len(classes))]}
+}
